@@ -21,7 +21,8 @@ func init() {
 			"G2 every expression container is traversed: the expression walkers that rewrite or remove references have an arm for each expression kind that can contain a reference in an uncompiled AST (RefExp, SplitExp, ArrayExp, MapExp) and recurse into the containers (sibling agreement), " +
 			"G3 names are matched whole: no strings.HasPrefix/HasSuffix/Contains/Index of a syntax name field against a non-constant name without a '.' delimiter anywhere in package refactoring, " +
 			"G4 key domains: Pipeline.Callables.Table is accessed with call ids and Ast.Callables.Table with declared names (domains of edit fields inferred from their stores into / comparisons with CallStm.Id and CallStm.DecId), " +
-			"G5 name spaces: nothing reachable from RenameOutput rewrites the id of a binding taken from CallStm.Bindings (an input name). " +
+			"G5 name spaces: nothing reachable from RenameOutput rewrites the id of a binding taken from CallStm.Bindings (an input name), " +
+			"G6 edits created while a callable is renamed do not find their target through the live id of a compiled pipeline they point to (a later rename of that pipeline in the same request would make the replay miss it). " +
 			"NOT decided: that the edited program compiles, call-graph equality, round-trip of renames.",
 		Assumptions: commonAssumptions,
 	}
@@ -252,6 +253,7 @@ func runC19(c *an.Ctx) {
 	// ---------------- G3 ----------------
 	ruleG3(c, p.FuncsOf(pkgRefac))
 	ruleG4(c, p.FuncsOf(pkgRefac))
+	ruleG6(c, sp, inRefac)
 
 	// ---------------- G2 ----------------
 	walkers := []struct {
@@ -565,4 +567,91 @@ func ruleG4(c *an.Ctx, fns []*ssa.Function) {
 	}
 	c.Note("G4: %d table accesses with a key of known domain, %d of unknown domain (no verdict)", n, undecided)
 	c.Floor("G4", "accesses of a Callables.Table with a key of known domain in package refactoring", n, 4)
+}
+
+// G6: edits created while callables are being renamed must not identify their target by the *live* id
+// of a compiled pipeline.  Refactor applies each rename to the compiled ASTs at once and replays the
+// accumulated edits on the uncompiled ASTs later, in order.  An edit that was created for pipeline P
+// (holding a pointer to it) and compares `pipe.Id == e.Pipeline.Id` when applied reads whatever id P has
+// by then; if a later rename in the same request renames P itself, the replay looks for the new name
+// before P has been renamed in the AST it is replayed on, and the edit is silently skipped.
+func ruleG6(c *an.Ctx, sp *ssa.Package, inRefac func(*ssa.Function) bool) {
+	p := c.P
+	pipeId := p.Field(pkgSyntax, "Pipeline", "Id")
+	root := sp.Func("RenameCallable")
+	if pipeId == nil || root == nil {
+		c.Undecided("G6", "anchor(Pipeline.Id, RenameCallable)", token.NoPos, "not found")
+		return
+	}
+	created := map[*ssa.Function]string{} // Apply method -> edit type
+	seen := map[*ssa.Function]bool{}
+	var walk func(fn *ssa.Function)
+	walk = func(fn *ssa.Function) {
+		if fn == nil || seen[fn] || !inRefac(fn) {
+			return
+		}
+		seen[fn] = true
+		for _, a := range fn.AnonFuncs {
+			walk(a)
+		}
+		an.Instrs(fn, func(in ssa.Instruction) {
+			if cl := an.AsCallAny(in); cl != nil {
+				walk(cl.Common().StaticCallee())
+			}
+			if mi, ok := in.(*ssa.MakeInterface); ok {
+				if sel := p.SSA.MethodSets.MethodSet(mi.X.Type()).Lookup(nil, "Apply"); sel != nil {
+					if o, ok := sel.Obj().(*types.Func); ok {
+						if f := p.SSA.FuncValue(o); f != nil {
+							created[f] = mi.X.Type().String()
+						}
+					}
+				}
+			}
+		})
+	}
+	walk(root)
+	c.Floor("G6", "edit types constructed while renaming a callable", len(created), 3)
+	var applies []*ssa.Function
+	for f := range created {
+		applies = append(applies, f)
+	}
+	sort.Slice(applies, func(i, j int) bool { return an.FnName(applies[i]) < an.FnName(applies[j]) })
+	for _, ap := range applies {
+		recv := ap.Params[0]
+		var site ssa.Instruction
+		an.Instrs(ap, func(in ssa.Instruction) {
+			b, ok := in.(*ssa.BinOp)
+			if !ok || (b.Op != token.EQL && b.Op != token.NEQ) || site != nil {
+				return
+			}
+			for _, v := range []ssa.Value{b.X, b.Y} {
+				base, f := an.FieldLoad(an.Strip(v))
+				if f != pipeId {
+					continue
+				}
+				// base derives from a field of the receiver (a pointer the edit holds)
+				sl := newSlice(ap)
+				sl.add(base)
+				for x := range sl.seen {
+					if x == ssa.Value(recv) {
+						site = in
+					}
+					if al, ok := x.(*ssa.Alloc); ok {
+						// value receivers are spilled: the cell initialised from the receiver parameter
+						for _, r := range an.Referrers(al) {
+							if st, ok := r.(*ssa.Store); ok && st.Val == ssa.Value(recv) {
+								site = in
+							}
+						}
+					}
+				}
+			}
+		})
+		key := "edit-target-by-live-pipeline-id@" + an.FnName(ap)
+		if site != nil {
+			c.Fail("G6", key, site.Pos(), "created during a callable rename, this edit finds its pipeline by comparing with the current id of a compiled pipeline it points to; a later rename of that pipeline in the same Refactor request changes the id before the edit is replayed on the uncompiled AST, where the pipeline still has its old name: the edit is skipped and the result no longer compiles")
+		} else {
+			c.Pass("G6", key, ap.Pos(), "does not compare against the live id of a pipeline it points to")
+		}
+	}
 }
